@@ -8,6 +8,8 @@ import (
 	"image/color"
 
 	"github.com/reactivego/ivg"
+
+	"vph/vp"
 )
 
 // Operation codes of recorded Destination calls.
@@ -215,4 +217,26 @@ func (z *Raster) ClosePath() {
 }
 func (z *Raster) Draw(r image.Rectangle, src image.Image, sp image.Point) {
 	z.Log = append(z.Log, RCall{Op: ROpDraw, R: r, SP: sp, Src: src})
+}
+
+// SameCall compares two recorded calls field by field (floats by value with
+// NaN == NaN and +0 != -0, i.e. what a consumer can observe) as one condition.
+func SameCall(a, b *Call) bool {
+	return vp.All(a.Op == b.Op, a.Adj == b.Adj, a.Incr == b.Incr, a.LargeArc == b.LargeArc, a.Sweep == b.Sweep,
+		a.N == b.N, a.Color == b.Color,
+		vp.SameF32(a.A[0], b.A[0]), vp.SameF32(a.A[1], b.A[1]), vp.SameF32(a.A[2], b.A[2]),
+		vp.SameF32(a.A[3], b.A[3]), vp.SameF32(a.A[4], b.A[4]), vp.SameF32(a.A[5], b.A[5]))
+}
+
+// SameLog reports whether two logs are equal; the lengths must be concrete
+// per path (they are: the executor forks on structure).
+func SameLog(a, b []Call) bool {
+	if len(a) != len(b) {
+		return false
+	}
+	ok := true
+	for i := range a {
+		ok = vp.And(ok, SameCall(&a[i], &b[i]))
+	}
+	return ok
 }
